@@ -434,7 +434,9 @@ func (g *TmGen) refreshStored(c *tibctesting.TestChain, name string, stored []st
 	store := c.App.TIBCKeeper.ClientKeeper.ClientStore(c.GetContext(), name)
 	var out []storedCons
 	for _, s := range stored {
-		if _, err := ibctmtypes.GetConsensusState(store, c.App.AppCodec(), s.h); err == nil {
+		// keep the record only while the store still holds this very state (a height may be pruned and
+		// later written again by another header)
+		if cs, err := ibctmtypes.GetConsensusState(store, c.App.AppCodec(), s.h); err == nil && cs.Timestamp.Equal(s.t) {
 			out = append(out, s)
 		}
 	}
